@@ -109,6 +109,14 @@ RenamingInvariant ==
 \* collapsing the siblings a and b makes 'a should not import b' speak about a itself
 RhoCollapse == [c \in Comps |-> IF c = "b" THEN "a" ELSE c]
 
+\* Laws.tla holds a textual copy of the semantic operators (tlapm cannot load the community modules this module
+\* extends) and TLAPS proofs of the algebra for arbitrary D, I, r.  The copy is bound to the original here:
+L == INSTANCE Laws
+LawsCopyAgrees == \A r \in RS1 \cup RSB : /\ L!Pass(D, imports, r) = Pass(D, imports, r)
+                                          /\ L!Dual(r) = Dual(r)
+                                          /\ L!WithVerb(r, "should_not", ~r.exc) = WithVerb(r, "should_not", ~r.exc)
+                                          /\ L!IsRule(r)
+
 \* (R) emission: one JSON line per distinct state
 SetToSeqS(S) == SetToSeq(S)
 EmitState == EMIT => PrintT("STATE " \o ToJson([imports |-> SetToSeqS(imports), modules |-> SetToSeqS(T)]))
